@@ -36,7 +36,12 @@ RULE = ("bounded-exhaustive: every single event (4 kinds) with start and signal 
         "times off the lattice by +-1 us, mixed UTC offsets, add_load injections, options); price-list and "
         "schedule CSV files (collective and individual); a malformed stream (name collisions, "
         "zero interval, n = 0, cost {} without target, station = battery name) where only the "
-        "error kind and state are compared. non-trivial = at least one event applied inside the horizon")
+        "error kind and state are compared. non-trivial = at least one event applied inside the horizon. "
+        "Run-level part (concrete strategies): real Scenario.run of all eight strategies on scenarios of harness/scen.py and "
+        "of the strategy builders' families (quick 8+4 per strategy, thorough 80+40); every strategy step is one model "
+        "evaluation of that strategy's step model, its result line extended by the digest of the event-set connector "
+        "attributes (limit, cost, target, window, fixed-load / generation entries) and of world_state.future_events "
+        "(kinds, start / signal times, content hash) before and after the concrete step; oracle: unchanged")
 EXHAUSTIVE = {"quick": True, "thorough": True}
 CHUNK = 400
 ASSUMPTIONS = [
@@ -46,11 +51,18 @@ ASSUMPTIONS = [
     "(value*factor, -value, min); the Lean run is on Rat",
     "the strategy's own action between two base steps does not touch clock, future_events and the "
     "connector attributes other than charging-station / battery loads (hypotheses KeepsQueue / "
-    "KeepsConnectors of the theorems; the harness injects add_load calls under such names)",
+    "KeepsConnectors of the theorems of Properties/C07.lean; the harness injects add_load calls under such names). "
+    "Discharged for the eight strategy models in Properties/C07_Strategies.lean / C07_StrategiesWorlds.lean "
+    "(C07_<strategy>_keeps, C07_strategy_keeps_connectors, C07_in_force_concrete ...); for the real classes by the "
+    "digest in every step tie and the oracle runoracle.check_c07_keeps. Exception by design: peak_load_window "
+    "overwrites gc.window every step (C07_peak_load_window_window_written), flex_window re-writes the value it read",
     "tie order of events with equal start time is the model's (stable sort: hand-over order); the "
     "property does not fix it, the oracle accepts any tied value",
 ]
 UNPROVED = [
+    "the pending queue itself is an input of the strategy models (they cannot edit it): that the real classes leave "
+    "world_state.future_events alone is correspondence + oracle on real runs; distributed and peak_load_window have "
+    "frame theorems on their own state types but no adapter to the Strat state of the run theorems",
     "C07_series_tail_run is stated for a series with positive step length and no second writer of the "
     "same load entry (two series under one name, or d = 0, are covered by the oracle only)",
     "the CSV readers have no theorem of their own (their events are ordinary GridOperatorSignal / "
@@ -316,9 +328,49 @@ def d8_cases():
            "individual": True, "nveh": 1, "rows": rows2}
 
 
+KEEPS_STRATEGIES = ["greedy", "balanced", "balanced_market", "distributed", "flex_window", "peak_load_window",
+                    "peak_shaving", "schedule"]
+
+
+def keeps_cases(tier, seed):
+    """run-level part (task c07keeps): real `Scenario.run` of every strategy on scenarios of harness/scen.py and of the
+    strategy builders' own families; step tie with the digest of the event-set attributes and the pending queue, and
+    the oracle `runoracle.check_c07_keeps`"""
+    n, nb = (8, 4) if tier == "quick" else (80, 40)
+    for i in range(n):
+        for st in KEEPS_STRATEGIES:
+            yield {"k": "keeps_run", "seed": seed, "i": i, "strategy": st, "pid": PID}
+    for i in range(nb):
+        for st in KEEPS_STRATEGIES[2:]:
+            yield {"k": "keeps_run", "seed": seed, "i": i, "strategy": st, "pid": PID, "family": "builder"}
+
+
+def eval_keeps(case):
+    import runcheck
+    import runoracle
+    c = {k: v for k, v in case.items() if k != "k"}
+    res = runcheck.eval_run(c, [runoracle.check_c07_keeps], timeout_s=90)
+    rc = res.get("replay_case")
+    if isinstance(rc, dict):
+        rc = dict(rc)
+        rc["k"] = "keeps_run"
+        res["replay_case"] = rc
+    res["stats"] = ["keeps_run"] + ["keeps_" + s for s in res.get("stats", [])[:1]]
+    res.pop("sample", None)
+    return res
+
+
+def compare(case, impl, model):
+    if isinstance(case, dict) and case.get("k") == "keeps_run":
+        import runcheck
+        return runcheck.compare(case, impl, model)
+    return None if impl == model else "differs"
+
+
 def gen_cases(tier, seed):
     rnd = random.Random(seed * 7919 + 3)
     quick = tier == "quick"
+    yield from keeps_cases(tier, seed)
     yield from d8_cases()
     yield from csv_cases(rnd, 300 if quick else 20000)
     k = 0
@@ -648,6 +700,8 @@ def eval_sched(case):
 
 
 def eval_case(case):
+    if case.get("k") == "keeps_run" or ("k" not in case and "scenario" in case):
+        return eval_keeps(case)
     if case["k"] == "price":
         return eval_price(case)
     if case["k"] == "sched":
